@@ -608,3 +608,22 @@ func GenClosedSystemScript(t *rapid.T, thorough bool) *Script {
 	}
 	return s
 }
+
+func GenStmtFuzzScript(t *rapid.T, thorough bool) *Script {
+	o := mixedOpts(thorough)
+	o.Faults, o.BindFailures, o.MIG = false, false, false
+	o.MaxCycles = 3
+	s := GenScript(t, "C13", "stmt-fuzz", o)
+	pos := rapid.IntRange(0, len(s.Config.Actions)).Draw(t, "fuzzpos")
+	var as []string
+	as = append(as, s.Config.Actions[:pos]...)
+	as = append(as, "verif-stmtfuzz")
+	as = append(as, s.Config.Actions[pos:]...)
+	s.Config.Actions = as
+	n := rapid.IntRange(3, 24).Draw(t, "proglen")
+	for i := 0; i < n; i++ {
+		k := pick(t, "opkind", "evict", "evict", "allocjob", "allocjob", "allocjob", "unevict", "checkpoint", "checkpoint", "rollback", "rollback", "convert", "end")
+		s.StmtProgram = append(s.StmtProgram, StmtOp{Kind: k, A: rapid.IntRange(0, 30).Draw(t, "opa"), B: rapid.IntRange(0, 5).Draw(t, "opb")})
+	}
+	return s
+}
